@@ -165,10 +165,11 @@ class BandBench:
     def run(self, lay, name):
         from gnpy.topology.spectrum_assignment import build_oms_list
         from gnpy.core.elements import Edfa, Roadm
-        # group 1: link A-B, group 2: link B-C; the reverse direction carries the two amplifiers in the other order
+        # group 1: A->B and C->B, group 2: B->C and B->A (amplifiers in the other order on the way back): the two directions of
+        # a link carry different amplifier sets whenever the two groups differ
         nodes = node_map(self.net)
-        groups = {('roadm A', 'roadm B'): lay[0], ('roadm B', 'roadm A'): lay[0][::-1],
-                  ('roadm B', 'roadm C'): lay[1], ('roadm C', 'roadm B'): lay[1][::-1]}
+        groups = {('roadm A', 'roadm B'): lay[0], ('roadm B', 'roadm A'): lay[1][::-1],
+                  ('roadm B', 'roadm C'): lay[1], ('roadm C', 'roadm B'): lay[0][::-1]}
         for (a, b), amps in groups.items():
             chain = []
             n = next(x for x in self.net.successors(nodes[a]) if f'to {b[6:]}' in x.uid or f'{a[6:]} -> {b[6:]}' in x.uid
